@@ -551,10 +551,10 @@ def i_save(ins, fmap):
     _cur_wim = fmap(wim)
     if _cur_cwp._is_cst:
         _new_cwp = (_cur_cwp.v - 1) % NWINDOWS
-        if _cur_wim[_new_cwp] == bit1:
+        if _cur_wim[_new_cwp : _new_cwp + 1] == bit1:
             trap(ins, fmap, "window_overflow")
         else:
-            fmap[cwp] = _new_cwp
+            fmap[cwp] = cst(_new_cwp, cwp.size)
     else:
         fmap[cwp] = top(cwp.size)
     if dst is not g0:
@@ -568,10 +568,10 @@ def i_restore(ins, fmap):
     _cur_wim = fmap(wim)
     if _cur_cwp._is_cst:
         _new_cwp = (_cur_cwp.v + 1) % NWINDOWS
-        if _cur_wim[_new_cwp] == bit1:
+        if _cur_wim[_new_cwp : _new_cwp + 1] == bit1:
             trap(ins, fmap, "window_underflow")
         else:
-            fmap[cwp] = _new_cwp
+            fmap[cwp] = cst(_new_cwp, cwp.size)
     else:
         fmap[cwp] = top(cwp.size)
     if dst is not g0:
